@@ -419,12 +419,13 @@ def _driver(argv: list[str]) -> int:
             i = rnd.randrange(len(toks))
             op = rnd.randrange(9)
             t = toks[i]
-            if op == 0 and t[:1].isdigit() or t[:1] == b"-":
+            if op == 0 and (t[:1].isdigit() or t[:1] == b"-"):
                 try:
-                    v = int(float(t))
-                    toks[i] = str(v + rnd.choice(
-                        [-1, 1, -2, 2, 10, -10, v, -v])).encode()
-                except ValueError:
+                    v = int(t) if b"." not in t else int(float(t))
+                    if abs(v) < 10 ** 30:
+                        toks[i] = str(v + rnd.choice(
+                            [-1, 1, -2, 2, 10, -10, v, -v])).encode()
+                except (ValueError, OverflowError):
                     pass
             elif op == 1:
                 toks[i] = rnd.choice(edges)
